@@ -1,11 +1,52 @@
 /-
 C08, part `lin` — NW, SW and Fitted return optimal-scoring alignments.
-Property theorems only.
+Property theorems only; the proofs are in `Biogo/Proofs/AlignLin*.lean`.
+
+`S : Matrix` is the scoring function the model builds from the flattened matrix
+(`matOf la n a b = la[a*n+b]`, row/column 0 = gap letter); `r`, `q` are the alphabet indices
+of the two sequences.  `nwScore`, `swScore`, `fitScoreAt` are the table values of the
+executable model the driver runs (`Biogo.AlignLin`): the bottom-right cell of NW's table, SW's
+`maxS`, the last-column cell of row `e` of Fitted's table.
 -/
-import Biogo.Model.AlignLin
-import Biogo.Spec.AlignPairs
+import Biogo.Proofs.AlignLinOpt
 
 namespace Biogo.Properties.C08_lin
-open Biogo.AlignLin Biogo.Spec.AlignPairs Biogo.Spec.Alignment
+open Biogo.AlignLin Biogo.Spec.AlignPairs Biogo.Spec.Alignment Biogo.Proofs.AlignLin
+
+/-- "the total score of the alignment returned by the Needleman-Wunsch aligners equals the
+    maximum over all global alignments" — the value of the table the model fills row by row is an
+    upper bound for every global alignment and is attained by one.  Holds for every matrix
+    (the hypothesis "non-positive gap scores" is not needed). -/
+theorem nw_opt (S : Matrix) (r q : List Nat) :
+    (∀ a, IsGlobal a r q → scoreLin S a ≤ nwScore S r q) ∧
+    ∃ a, IsGlobal a r q ∧ scoreLin S a = nwScore S r q :=
+  Biogo.Proofs.AlignLin.nw_opt S r q
+
+/-- "that of the Smith-Waterman aligners equals the maximum over all local alignments (zero if
+    none is positive)" — `maxS` bounds every local alignment (the empty one scores 0) and is
+    attained; this includes that the end-cell filter `score == diagScore` of the code loses
+    nothing when gap scores are ≤ 0. -/
+theorem sw_opt (S : Matrix) (hg : ∀ x, S x 0 ≤ 0 ∧ S 0 x ≤ 0) (r q : List Nat) :
+    (∀ a, IsLocal a r q → scoreLin S a ≤ swScore S r q) ∧
+    ∃ a, IsLocal a r q ∧ scoreLin S a = swScore S r q :=
+  Biogo.Proofs.AlignLin.sw_opt S hg r q
+
+/-- the empty alignment is local, so SW's value is never negative -/
+theorem sw_nonneg (S : Matrix) (hg : ∀ x, S x 0 ≤ 0 ∧ S 0 x ≤ 0) (r q : List Nat) : 0 ≤ swScore S r q :=
+  (swFill_bound S hg r q).1
+
+/-- "optimal among all such alignments that end at the same reference position" — for every end
+    position `e`, the last-column cell of row `e` of Fitted's table is the maximum score over the
+    alignments of the whole query with a reference segment ending at `e`. -/
+theorem fitted_table_opt (S : Matrix) (hg : ∀ x, S x 0 ≤ 0 ∧ S 0 x ≤ 0) (r q : List Nat)
+    (e : Nat) (he : e ≤ r.length) :
+    (∀ a, IsFitted a r q e → scoreLin S a ≤ fitScoreAt S r q e) ∧
+    ∃ a, IsFitted a r q e ∧ scoreLin S a = fitScoreAt S r q e :=
+  fit_opt S hg r q e he
+
+-- non-vacuity: a scoring function with non-positive gap scores, and concrete values
+example : ∃ S : Matrix, ∀ x, S x 0 ≤ 0 ∧ S 0 x ≤ 0 := ⟨fun _ _ => 0, by simp⟩
+example : nwScore (fun a b => if a = 0 ∨ b = 0 then -1 else if a = b then 2 else -1) [1, 2, 1] [1, 1] = 3 := by decide
+example : swScore (fun a b => if a = 0 ∨ b = 0 then -1 else if a = b then 2 else -1) [2, 1, 1] [1, 1, 2] = 4 := by decide
 
 end Biogo.Properties.C08_lin
